@@ -138,6 +138,7 @@ package keystore
 //@   ensures tx-single: tx_count <= old(tx_count) + 1 && !in_tx
 //@ func (*KeystoreManagerForPoC).DeleteKeystore
 //@   requires tx-entry: !in_tx && !write_failed && !commit_done
+//@   assert-at call clearPrivKeys keys-are-wiped-only-after-the-deletion-is-committed: commit_done && !in_tx
 //@   ensures tx-single: tx_count <= old(tx_count) + 1 && !in_tx
 //@ func (*KeystoreManagerForPoC).Unlock
 //@   requires tx-entry: !in_tx && !write_failed && !commit_done
